@@ -691,3 +691,50 @@ def rule_queryreg(P):
             res.ok({'function': fi.fq, 'registry': 'rebuilt from the loaded entries; first directive of a name wins',
                     'duplicate_warned': bool([e for e in p.events if e[0] == 'warned'])})
     return res
+
+
+# ----------------------------------------------------------------------
+# R-OUTPUT (C19): the output of a statement goes to the shell's output file, which stays open for the next statement
+
+def rule_output(P):
+    """DispatchingShell.output on terms.  Every handler writes through `with self.output as out`: on every path the property must
+    hand out a context manager that yields a file and leaves it open on exit - for a redirected output (-o FILE, a file passed to
+    the shell) `nullcontext(self.outfile)`, for the terminal a pager or the flushing wrapper around sys.stdout.  A file object handed
+    out as it is would be its own context manager and be closed by the first statement."""
+    from ..report import RuleResult
+    res = RuleResult('R-OUTPUT')
+    res.exhaustive = True
+    sh = P.module(SH)
+    ds = sh.classes.get('DispatchingShell')
+    f = ds.methods.get('output') if ds else None
+    if f is None:
+        raise AnalysisError('anchor vanished: DispatchingShell.output')
+    SELF = Sym('SHELL')
+    OUTFILE = T('attr', (SELF, 'outfile'))
+    n = 0
+    for p in Engine(P, max_depth=1).paths(f, {'self': SELF}):
+        n += 1
+        if p.outcome != 'return':
+            continue
+        v = p.value
+        tests = [(t, o) for t, o in p.decisions]
+        to_terminal = any(isinstance(t, T) and t.op == 'cmp' and t.args[0] in ('is', '==') and OUTFILE in t.args[1:] and 'stdout' in show(t) and o
+                          or isinstance(t, T) and t.op == 'cmp' and t.args[0] in ('is not', '!=') and OUTFILE in t.args[1:] and 'stdout' in show(t) and not o
+                          for t, o in tests)
+        label = 'output on the terminal' if to_terminal else 'output redirected to a file'
+        bare = v == OUTFILE or (isinstance(v, T) and v.op in ('global', 'attr') and show(v).endswith("stdout"))
+        if bare:
+            res.fail(f.fq, 'output:closes', f'{label}: the property hands out the file object itself (`{show(v)[:40]}`): a file is its own context '
+                     f'manager, so the first `with self.output as out:` closes it and every later statement of the session fails or writes '
+                     f'nothing', loc(f))
+            continue
+        if not to_terminal:
+            ok = isinstance(v, T) and v.op == 'call' and str(v.args[0]).split('.')[-1] == 'nullcontext' and tuple(v.args[1]) == (OUTFILE,) and not v.args[2]
+            if not ok:
+                res.fail(f.fq, 'output:file', f'{label}: statements must write to the shell\'s output file, left open: nullcontext(self.outfile); '
+                         f'found `{show(v)[:80]}`', loc(f))
+                continue
+        res.ok({'case': label, 'conditions': [f'{show(t)[:40]} is {o}' for t, o in tests], 'hands_out': show(v)[:60]})
+    if n == 0:
+        raise AnalysisError(f'{f.fq}: no path on terms')
+    return res
